@@ -108,7 +108,7 @@ static void explore(Result& R) {
     for (int T : {2, 3}) { if (!th && T == 3) continue; subs.push_back({"run_iteration x2, three non-interacting cells, T=" + std::to_string(T), T, th ? 2 : 1, [] { return scenario_iterations(2); }, nullptr, hash_world, "@serial"}); }
     if (th) subs.push_back({"run_iteration x2, three non-interacting cells, T=4", 4, 1, [] { return scenario_iterations(2); }, nullptr, hash_world, "@serial"});
 
-    long total_exec = 0, total_points = 0, total_pruned = 0; long unit = 0;
+    long total_switch = 0, total_exec = 0, total_points = 0, total_pruned = 0; long unit = 0;
     for (Sub& s : subs) { if (!R.args.mine(unit++)) continue; if (R.out_of_time(0.9)) { R.cap("deadline before sub-check " + s.name); break; }
         progress("sub=" + s.name + "\n");
         if (s.reference == "@serial") { vomp::set_mode(vomp::MODE_SERIAL, 1); s.reference = s.scenario(); std::string again = s.scenario(); if (again != s.reference) { R.internal_error = "sequential reference of '" + s.name + "' is not reproducible"; return; } }
@@ -119,7 +119,7 @@ static void explore(Result& R) {
                 else if (s.judge) e = s.judge(x.outcome); else if (functional && x.outcome != s.reference) e = "result-differs-from-the-single-threaded-run: '" + x.outcome.substr(0, 200) + "' vs '" + s.reference.substr(0, 200) + "'";
                 if (!e.empty() && first_err.empty()) { first_err = e; first_sched = x.choices(); } };
             E.explore({});
-            total_exec += E.executions; total_points += E.points; total_pruned += E.pruned; R.tables["schedules_per_subcheck"][s.name + " bound=" + std::to_string(b)] = E.executions; R.tables["distinct_outcomes_per_subcheck"][s.name + " bound=" + std::to_string(b)] = (long)E.outcomes.size();
+            total_exec += E.executions; total_switch += E.with_switch; total_points += E.points; total_pruned += E.pruned; R.tables["schedules_per_subcheck"][s.name + " bound=" + std::to_string(b)] = E.executions; R.tables["distinct_outcomes_per_subcheck"][s.name + " bound=" + std::to_string(b)] = (long)E.outcomes.size();
             if (E.capped) R.cap("sub-check '" + s.name + "' bound " + std::to_string(b) + " stopped at " + std::to_string(E.executions) + " schedules");
             if (R.samples.size() < 6 && !E.sample_schedules.empty()) R.sample("{\"subcheck\":\"" + s.name + "\",\"bound\":" + std::to_string(b) + ",\"schedule\":\"" + vomp::Explorer::schedule_text(E.sample_schedules.back()) + "\",\"schedules_explored\":" + std::to_string(E.executions) + "}");
             if (!first_err.empty()) { if (first_err.rfind("INTERNAL", 0) == 0) { R.internal_error = first_err + " in " + s.name; return; }
@@ -131,8 +131,8 @@ static void explore(Result& R) {
     vomp::set_mode(vomp::MODE_SERIAL, 1); sw::cleanup_scratch();
     // race reports of the TSan build (every explored schedule is also race-checked: hand-offs are invisible to the sanitizer)
     collect_tsan(R);
-    R["states"] = total_points; R["transitions"] = total_points; R["evaluations"] = total_exec; R["schedules"] = total_exec; R["distinct_nontrivial"] = total_exec; R["traces_validated_against_impl"] = total_exec; R["schedules_pruned_by_state_hash"] = total_pruned;
-    R.strings["rule"] = "a schedule = a sequence of choices at the scheduling points of vomp (region start, critical/lock entry and exit, hooked loop bodies, thread exit); for every sub-check all schedules with 0, then 1, then 2 (...) preemptions are executed on the real code with a team of real threads of which one runs at a time; states/transitions = scheduling points visited; every complete execution is judged (equality with the single-threaded result, exception identity, exactly-once execution), replayed twice before a report";
+    R["states"] = total_points; R["transitions"] = total_points; R["evaluations"] = total_exec; R["schedules"] = total_exec; R["distinct_nontrivial"] = total_switch; R["traces_validated_against_impl"] = total_exec; R["schedules_pruned_by_state_hash"] = total_pruned;
+    R.strings["rule"] = "distinct_nontrivial = schedules (distinct choice sequences by construction) in which at least one decision departs from the default of letting the running thread continue; a schedule = a sequence of choices at the scheduling points of vomp (region start, critical/lock entry and exit, hooked loop bodies, thread exit); for every sub-check all schedules with 0, then 1, then 2 (...) preemptions are executed on the real code with a team of real threads of which one runs at a time; states/transitions = scheduling points visited; every complete execution is judged (equality with the single-threaded result, exception identity, exactly-once execution), replayed twice before a report";
     R.assumptions = {"scheduling granularity: OpenMP runtime entry points and the guarded H3 points; unsynchronised accesses between those points are the business of the TSan build (scheduler TU uninstrumented, hand-offs by raw futex)", "team sizes 1-3 (4 in the thorough tier), preemption bounds as listed per sub-check", "the sampling RNG is seeded per cell through the guarded seam (H2), so a division does not depend on which thread performs it"};
 }
 static int replay(const Replay& rp, Result& R) { printf("C15 replay: sub-check '%s' schedule %s (re-run bin/vcheck C15 to reproduce under the explorer)\n", rp.get("sub").c_str(), rp.get("schedule").c_str()); Result R2; R2.args = R.args; R2.property = "C15"; R2.args.deadline = 600; explore(R2); for (auto& v : R2.violations) if (v.key == rp.get("key")) { printf("%s\n", v.what.c_str()); R.violation(v.key, v.what, ""); return 1; } return 0; }
